@@ -384,7 +384,9 @@ class FnSplicer:
 
         # Rule 'tokens-to-helper': an exact token sequence (a std call chain Verus cannot take) is replaced by a call of a
         # helper function whose body is that very expression behind an assumed contract: [(tokens, replacement)]
-        for n_tr, (pattern, replacement) in enumerate(spec.get('token_rewrites') or []):
+        for n_tr, tr_item in enumerate(spec.get('token_rewrites') or []):
+            pattern, replacement = tr_item[0], tr_item[1]
+            tr_expected = tr_item[2] if len(tr_item) > 2 else 1      # exact number of occurrences the rule is written for
             want = [t.text for t in lex(pattern) if t.kind not in ('comment', 'doc')]
             hits = []
             i = body_open + 1
@@ -392,11 +394,12 @@ class FnSplicer:
                 if [t.text for t in toks[i:i + len(want)]] == want and not excluded(i):
                     hits.append(i)
                 i += 1
-            if len(hits) != 1:
+            if len(hits) != tr_expected:
                 raise ExtractError('lost anchor: `%s` occurs %d times in %s' % (pattern, len(hits), tag))
-            self.segs.rewrite(toks[hits[0]].start, toks[hits[0] + len(want) - 1].end, replacement, 'tokens-to-helper')
-            tr_excl.append((hits[0], hits[0] + len(want) - 1))   # loops and closures inside the replaced text no longer exist
-            self.counts['tokens-to-helper'] = self.counts.get('tokens-to-helper', 0) + 1
+            for h in hits:
+                self.segs.rewrite(toks[h].start, toks[h + len(want) - 1].end, replacement, 'tokens-to-helper')
+                tr_excl.append((h, h + len(want) - 1))   # loops and closures inside the replaced text no longer exist
+                self.counts['tokens-to-helper'] = self.counts.get('tokens-to-helper', 0) + 1
 
 
         # loops
@@ -491,20 +494,23 @@ class FnSplicer:
                 self.counts['ghost-annotation'] = self.counts.get('ghost-annotation', 0) + 1
 
         # ghost annotations before a statement identified by its leading tokens: [(token texts, ghost code)]
-        for n_anchor, (anchor, code) in enumerate(spec.get('ghost_before') or []):
+        for n_anchor, gb_item in enumerate(spec.get('ghost_before') or []):
+            anchor, code = gb_item[0], gb_item[1]
+            gb_expected = gb_item[2] if len(gb_item) > 2 else 1      # exact number of occurrences the annotation is written for
             want = anchor.split()
-            hit = None
+            hits = []
             i = body_open + 1
             while i < body_close - len(want):
                 if [t.text for t in toks[i:i + len(want)]] == want and not excluded(i):
-                    if hit is not None:
-                        raise ExtractError('ambiguous anchor: `%s` occurs more than once in %s' % (anchor, tag))
-                    hit = i
+                    hits.append(i)
                 i += 1
-            if hit is None:
+            if len(hits) > gb_expected:
+                raise ExtractError('ambiguous anchor: `%s` occurs more than %d time(s) in %s' % (anchor, gb_expected, tag))
+            if len(hits) < gb_expected:
                 raise ExtractError('lost anchor: statement `%s` in %s' % (anchor, tag))
-            self.segs.insert(toks[hit].start, code.rstrip() + '\n            ', '%s/ghost-before%d' % (tag, n_anchor), order=0)
-            self.counts['ghost-annotation'] = self.counts.get('ghost-annotation', 0) + 1
+            for n_hit, hit in enumerate(hits):
+                self.segs.insert(toks[hit].start, code.rstrip() + '\n            ', '%s/ghost-before%d%s' % (tag, n_anchor, ('.%d' % n_hit) if n_hit else ''), order=0)
+                self.counts['ghost-annotation'] = self.counts.get('ghost-annotation', 0) + 1
 
         # Rule 'labeled-block-to-loop': `'l: { BODY }` (a unit-valued labeled block, which Verus does not support)
         # becomes `'l: loop <clauses> decreases 0int { BODY break 'l; }`: one pass through BODY, every `break 'l`
